@@ -71,8 +71,10 @@ def _mods():
 
 def call(case, n, L):
     """Dispatch one case at Mellin moment n (and log L for matching elements)."""
-    m = _mods()
     e = case["entry"]
+    if e == "fn":
+        return call_fn(case, n, L)
+    m = _mods()
     o = tuple(case["order"])
     nf = case.get("nf")
     var = tuple(case.get("var", (0,) * 7))
@@ -111,7 +113,142 @@ def call(case, n, L):
     raise KeyError(e)
 
 
+KNOWN_PARAMS = {"n", "N", "_N", "nf", "cache", "L", "_L", "variation", "is_msbar", "eta", "mode"}
+TOWER_PARAMS = {"order", "matching_order"}  # the public towers are enumerated explicitly above
+TUPLE_VARIATION = {"gamma_singlet", "gamma_singlet_qed", "gamma_valence_qed"}  # take the variation tuple
+
+
+def discover():
+    """Every function defined in ekore.anomalous_dimensions / ekore.operator_matrix_elements (any depth)."""
+    import importlib
+    import inspect
+    import pkgutil
+
+    import ekore.anomalous_dimensions as ad
+    import ekore.operator_matrix_elements as ome
+
+    out = []
+    for pkg in (ad, ome):
+        names = [pkg.__name__] + [m.name for m in pkgutil.walk_packages(pkg.__path__, pkg.__name__ + ".")]
+        for mn in names:
+            mod = importlib.import_module(mn)
+            for name, fn in sorted(vars(mod).items()):
+                if not inspect.isfunction(fn) or fn.__module__ != mod.__name__:
+                    continue
+                if not (name.startswith("gamma_") or name.lower().startswith("a_") or name.startswith("choose_")):
+                    continue
+                out.append((mn, name, tuple(inspect.signature(fn).parameters)))
+    return out
+
+
+def call_fn(case, n, L):
+    import importlib
+
+    from ekore.harmonics import cache as c
+
+    fn = getattr(importlib.import_module(case["module"]), case["name"])
+    args = []
+    for p in case["params"]:
+        if p in ("n", "N", "_N"):
+            args.append(n)
+        elif p == "nf":
+            args.append(case["nf"])
+        elif p == "cache":
+            args.append(c.reset())
+        elif p in ("L", "_L"):
+            args.append(L)
+        elif p == "variation":
+            v = case["var"]
+            args.append((v,) * 7 if case["name"] in TUPLE_VARIATION else v)
+        elif p == "is_msbar":
+            args.append(case["msbar"])
+        elif p == "eta":
+            args.append(case["eta"])
+        elif p == "mode":
+            args.append(case["mode"])
+        else:  # pragma: no cover
+            raise KeyError(p)
+    return fn(*args)
+
+
+_DISC = None
+
+
+def _discovered():
+    global _DISC
+    if _DISC is None:
+        _DISC = discover()
+    return _DISC
+
+
+def _is_leaf(mod, name):
+    """A function that references no other discovered function by name."""
+    import importlib
+
+    fn = getattr(importlib.import_module(mod), name)
+    names = {nm for _m, nm, _p in _discovered()} - {name}
+    return not (set(fn.__code__.co_names) & names)
+
+
+FAMILY_OF_ENTRY = {
+    "ad_us": "ekore.anomalous_dimensions.unpolarized.space_like",
+    "ad_ut": "ekore.anomalous_dimensions.unpolarized.time_like",
+    "ad_ps": "ekore.anomalous_dimensions.polarized.space_like",
+    "ome_us": "ekore.operator_matrix_elements.unpolarized.space_like",
+    "ome_ut": "ekore.operator_matrix_elements.unpolarized.time_like",
+    "ome_ps": "ekore.operator_matrix_elements.polarized.space_like",
+}
+
+
+def blame_leaf(case, n, L):
+    """A non-finite value of an aggregate is attributed to a leaf function of the same family that is itself
+    non-finite at the same (N, L, nf) - so that one defect has one signature (the leaf's own case reports it)."""
+    import itertools
+
+    if case["entry"] == "fn":
+        if _is_leaf(case["module"], case["name"]):
+            return None
+        fam = ".".join(case["module"].split(".")[:4])
+    else:
+        fam = FAMILY_OF_ENTRY[case["entry"].split(".")[0]]
+    nfs = [case["nf"]] if case.get("nf") is not None else [3, 4, 5, 6]
+    for mod, name, params in _discovered():
+        if not mod.startswith(fam) or set(params) & TOWER_PARAMS or not _is_leaf(mod, name):
+            continue
+        dims = {
+            "nf": nfs if "nf" in params else [None],
+            "var": [case.get("var", 0) if not isinstance(case.get("var"), list) else case["var"][0]]
+            if "variation" in params
+            else [None],
+            "msbar": [False, True] if "is_msbar" in params else [None],
+            "eta": [1, -1] if "eta" in params else [None],
+            "mode": [10102, 10103, 10202, 10203] if "mode" in params else [None],
+        }
+        for combo in itertools.product(*dims.values()):
+            sub = {"entry": "fn", "module": mod, "name": name, "params": list(params)}
+            sub.update({k: v for k, v in zip(dims, combo) if v is not None})
+            try:
+                with np.errstate(all="ignore"):
+                    v = np.asarray(call_fn(sub, n, L if L is not None else 0.0), dtype=np.complex128)
+            except Exception:  # noqa
+                continue
+            if not np.all(np.isfinite(v)):
+                return f"{mod}.{name}"
+    return None
+
+
 def _variant(case):
+    if case["entry"] == "fn":
+        v = []
+        if "var" in case:
+            v.append(f"var={case['var']}")
+        if "msbar" in case:
+            v.append(f"msbar={case['msbar']}")
+        if "eta" in case:
+            v.append(f"eta={case['eta']}")
+        if "mode" in case:
+            v.append(f"mode={case['mode']}")
+        return "/".join(v)
     v = []
     if "mode" in case:
         v.append(f"mode={case['mode']}")
@@ -126,35 +263,46 @@ def _variant(case):
 def evaluate(case):
     res = Result()
     pts, real = n_lattice(case["thorough"])
-    Ls = L_LATTICE if case["entry"].startswith("ome") else [None]
-    base = f"{case['entry']}" + (f"/{_variant(case)}" if _variant(case) else "")
+    is_fn = case["entry"] == "fn"
+    ename = f"{case['module'].replace('ekore.', '')}.{case['name']}" if is_fn else case["entry"]
+    has_L = any(p in ("L", "_L") for p in case["params"]) if is_fn else case["entry"].startswith("ome")
+    has_N = any(p in ("n", "N", "_N") for p in case["params"]) if is_fn else True
+    Ls = L_LATTICE if has_L else [None]
+    base = ename + (f"/{_variant(case)}" if _variant(case) else "")
+    if not has_N:
+        pts, real = [], [1.0]  # constant in N: must simply be real
     mx_c = mx_r = 0.0
     nev = 0
     refused = 0
     comps = set()
+    nonfinite_inherited = set()
     for L in Ls:
         for n in pts + [complex(x, 0.0) for x in real]:
             try:
                 with np.errstate(all="ignore"):
-                    a = np.asarray(call(case, n, L), dtype=np.complex128)
-                    b = np.asarray(call(case, n.conjugate(), L), dtype=np.complex128)
+                    a = np.atleast_1d(np.asarray(call(case, n, L), dtype=np.complex128))
+                    b = np.atleast_1d(np.asarray(call(case, n.conjugate(), L), dtype=np.complex128))
             except NotImplementedError:
                 refused += 1
                 continue
             except Exception as e:  # noqa
                 res.fail(
                     f"{base}/raises/{type(e).__name__}",
-                    f"order={case['order']} nf={case.get('nf')} N={n} L={L}: {type(e).__name__}: {e}",
+                    f"order={case.get('order')} nf={case.get('nf')} N={n} L={L}: {type(e).__name__}: {e}",
                 )
                 continue
             nev += 1
             bad = ~(np.isfinite(a) & np.isfinite(b))
             if bad.any():
-                # one signature per component, independent of variant flags (one defect = one signature)
-                for ix in zip(*np.nonzero(bad)):
+                blamed = blame_leaf(case, n, L)
+                if blamed:
+                    nonfinite_inherited.add(blamed)
+                # one signature per component, independent of variant flags (one defect = one signature);
+                # an aggregate whose leaf is non-finite at the same point leaves the report to the leaf's case
+                for ix in zip(*np.nonzero(bad)) if not blamed else ():
                     res.fail(
-                        f"{case['entry']}/component={list(map(int, ix))}/non-finite",
-                        f"order={case['order']} nf={case.get('nf')} N={n} L={L} {_variant(case)}: "
+                        f"{ename}/component={list(map(int, ix))}/non-finite",
+                        f"order={case.get('order')} nf={case.get('nf')} N={n} L={L} {_variant(case)}: "
                         f"f(N)={a[ix]!r} f(conj N)={b[ix]!r}",
                     )
                 a = np.where(bad, 0.0, a)
@@ -172,7 +320,7 @@ def evaluate(case):
             for ix in zip(*np.nonzero(~(dev <= TOL))):
                 res.fail(
                     f"{base}/component={list(map(int, ix))}/{kind}",
-                    f"order={case['order']} nf={case.get('nf')} N={n} L={L}: f(N)={a[ix]!r} f(conj N)={b[ix]!r} "
+                    f"order={case.get('order')} nf={case.get('nf')} N={n} L={L}: f(N)={a[ix]!r} f(conj N)={b[ix]!r} "
                     f"rel.dev={dev[ix]:.3e}",
                 )
             comps.update(map(tuple, np.argwhere(np.abs(a) > 0).tolist()))
@@ -182,9 +330,10 @@ def evaluate(case):
         "evaluations": nev,
         "refused": refused,
         "nonzero_components": len(comps),
+        "nonfinite_inherited_from": sorted(nonfinite_inherited),
     }
     res.nontrivial = nev > 0 and len(comps) > 0
-    res.outcome = "refused" if nev == 0 else f"{case['entry']}/ncomp={len(comps)}"
+    res.outcome = "refused" if nev == 0 else f"{ename}/ncomp={len(comps)}"
     return res
 
 
@@ -234,6 +383,25 @@ def all_cases(thorough):
         add(entry="ome_ut.A_non_singlet", order=[k, 0])
     for k in (1, 2):
         add(entry="ome_ps.A_non_singlet", order=[k, 0])
+    # every individual function (fresh cache per call), found by introspection
+    for mod, name, params in discover():
+        if set(params) & TOWER_PARAMS:
+            continue
+        unknown = set(params) - KNOWN_PARAMS
+        if unknown:
+            from vf.core.ctx import HarnessError
+
+            raise HarnessError(f"C26 does not know how to supply {unknown} of {mod}.{name}{params}")
+        dims = [("nf", NF if "nf" in params else [None])]
+        dims.append(("var", var_e if "variation" in params else [None]))
+        dims.append(("msbar", [False, True] if "is_msbar" in params else [None]))
+        dims.append(("eta", [1, -1] if "eta" in params else [None]))
+        dims.append(("mode", NSQ if "mode" in params else [None]))
+        import itertools
+
+        for combo in itertools.product(*[d[1] for d in dims]):
+            kw = {k: v for (k, _), v in zip(dims, combo) if v is not None}
+            add(entry="fn", module=mod, name=name, params=list(params), **kw)
     return cases
 
 
@@ -244,7 +412,8 @@ def run(ctx):
     pts, real = n_lattice(th)
     nev = sum((r[1][3] or {}).get("evaluations", 0) for r in results)
     ctx.extra["function_evaluation_pairs"] = int(nev)
-    ctx.extra["entries"] = len({c["entry"] for c in cases})
+    ctx.extra["entries"] = len({c["entry"] for c in cases if c["entry"] != "fn"})
+    ctx.extra["individual_functions"] = len({(c["module"], c["name"]) for c in cases if c["entry"] == "fn"})
     ctx.rule = (
         f"complete product of the 15 public entry points (unpolarised space-like QCD ns/singlet and QED "
         f"ns/singlet/valence, time-like, polarised; matching elements unpolarised incl. MSbar flag, time-like, "
@@ -253,7 +422,10 @@ def run(ctx):
         f"case evaluates {len(pts)} complex N (both Talbot contours at u in "
         f"{'0.51..0.95' if th else '0.55,0.75,0.95'}, generic, near-real, far) with their conjugates and "
         f"{len(real)} real N, x L in {L_LATTICE} for matching elements; non-trivial = evaluated (not refused with "
-        f"NotImplementedError, e.g. nf=6 at N3LO) and at least one non-zero component"
+        f"NotImplementedError, e.g. nf=6 at N3LO) and at least one non-zero component. In addition every "
+        f"individual function gamma_*/A_*/a_*/choose_* found by introspection in the two packages "
+        f"({ctx.extra['individual_functions']} functions) is called with a fresh cache over the same lattice x nf x "
+        f"variation x flags"
     )
     ctx.assumptions += [
         "relative deviation is measured per component against max(|component|, 1e-8 * largest component)",
